@@ -1,0 +1,86 @@
+// Add-only export shim (build tag verif): the lookup tables that this package
+// DERIVES at init time (initLUTs) and decodes with, for the generated-table
+// obligations of the verification harness (harness/cmd/gentables). Read-only
+// copies; nothing here is compiled in a normal build.
+
+//go:build verif
+// +build verif
+
+package brotli
+
+// VerifReverseLUT returns reverseLUT (initCommonLUTs).
+func VerifReverseLUT() []uint8 { return append([]uint8(nil), reverseLUT[:]...) }
+
+// VerifContextPLUTs returns contextP1LUT and contextP2LUT (initContextLUTs),
+// each indexed by mode<<8 | byte.
+func VerifContextPLUTs() (p1, p2 []uint8) {
+	return append([]uint8(nil), contextP1LUT[:]...), append([]uint8(nil), contextP2LUT[:]...)
+}
+
+// VerifSimpleLens returns simpleLens1, simpleLens2, simpleLens3, simpleLens4a,
+// simpleLens4b (RFC section 3.4).
+func VerifSimpleLens() [][]uint {
+	return [][]uint{
+		append([]uint(nil), simpleLens1[:]...),
+		append([]uint(nil), simpleLens2[:]...),
+		append([]uint(nil), simpleLens3[:]...),
+		append([]uint(nil), simpleLens4a[:]...),
+		append([]uint(nil), simpleLens4b[:]...),
+	}
+}
+
+// VerifPrefixCode is an exported copy of prefixCode.
+type VerifPrefixCode struct{ Sym, Val, Len uint32 }
+
+func verifCodes(cs []prefixCode) []VerifPrefixCode {
+	out := make([]VerifPrefixCode, len(cs))
+	for i, c := range cs {
+		out[i] = VerifPrefixCode{c.sym, c.val, c.len}
+	}
+	return out
+}
+
+// VerifFixedCodes returns codeCLens, codeMaxRLE, codeWinBits, codeCounts as
+// they are after initPrefixCodeLUTs (values assigned).
+func VerifFixedCodes() (clens, maxRLE, winBits, counts []VerifPrefixCode) {
+	return verifCodes(codeCLens), verifCodes(codeMaxRLE), verifCodes(codeWinBits), verifCodes(codeCounts)
+}
+
+// VerifDecoder is an exported copy of a prefixDecoder's tables.
+type VerifDecoder struct {
+	Chunks                                           []uint32
+	Links                                            [][]uint32
+	ChunkMask, LinkMask, ChunkBits, MinBits, NumSyms uint32
+}
+
+func verifDecoder(pd *prefixDecoder) VerifDecoder {
+	d := VerifDecoder{
+		Chunks:    append([]uint32(nil), pd.chunks...),
+		ChunkMask: pd.chunkMask, LinkMask: pd.linkMask, ChunkBits: pd.chunkBits,
+		MinBits: pd.minBits, NumSyms: pd.numSyms,
+	}
+	for _, l := range pd.links {
+		d.Links = append(d.Links, append([]uint32(nil), l...))
+	}
+	return d
+}
+
+// VerifFixedDecoders returns the built tables of decCLens, decMaxRLE,
+// decWinBits, decCounts.
+func VerifFixedDecoders() (clens, maxRLE, winBits, counts VerifDecoder) {
+	return verifDecoder(&decCLens), verifDecoder(&decMaxRLE), verifDecoder(&decWinBits), verifDecoder(&decCounts)
+}
+
+// VerifPrefixConsts returns prefixCountBits, prefixSymbolBits,
+// prefixMaxChunkBits, maxPrefixBits.
+func VerifPrefixConsts() []int {
+	return []int{prefixCountBits, prefixSymbolBits, prefixMaxChunkBits, maxPrefixBits}
+}
+
+// VerifInitDists returns the last-distance ring of a freshly Reset Reader
+// (RFC section 4).
+func VerifInitDists() []int {
+	var br Reader
+	br.Reset(nil)
+	return append([]int(nil), br.dists[:]...)
+}
